@@ -137,6 +137,12 @@ def run(ck, fx, cg, tier):
                 ck.ob("R8.forward", "%s|%s" % (st, item), ok, loc(hb), why)
                 ck.sample({"rule": "R8.forward", "impl": path, "verdict": why})
     _flush(ck, fx, cg, reach)
+    # the sink receives the serializer's bytes and nothing else happens to it: the compile action touches its sink only by
+    # handing it to the serializer and flushing it (no pre-sizing, seeking, second handle) — C04's R4.notrailing
+    # obligations, evaluated as one presupposition
+    from . import shared as _sh8
+    _sh8.presuppose(ck, fx, cg, "C04", lambda o: o["rule"] == "R4.notrailing", "R8.only",
+                    "the output sink is only written by the serializer and flushed", floor=1)
     ck.floor("R8.count", "sink write sites in the reachable set", n_sink_sites, 1)
     ck.floor("R8.forward", "local impl Write", n_impls, 1)
     ck.floor("R8.propagate", "Result-typed expressions examined", n_result_sites, 5)
